@@ -33,6 +33,12 @@ CLAIMED = {
  "C10": ("property-based testing: permutation oracle on arbitrary input; constructed bounded-delay streams with recomputed calculated times as ordering oracle",
          "Generated-input exploration: permutation for messy traces (table from the real detector, or arbitrary/unknown ids), ordering for streams constructed to satisfy the stated bound exactly (several ECUs/lifecycles, control requests, capped messages, windows 1..10 s, min delay 0..60 s).",
          "calculated time is recomputed by the harness from the statement; times are multiples of 0.1 ms so the bound holds exactly", "4/C10"),
+ "C11": ("property-based testing: reference matcher vs Filter::matches through each front-end printer/parser (differential), JSON round trip (metamorphic)",
+         "Generated-input exploration over abstract filters x messages; each front-end (JSON, DLF, dlt-convert list; ECU:APID:CTID via the binary in C14) is fed the printed form of the abstract filter and must decide like the reference; every loaded filter is serialised and re-loaded and must decide identically.",
+         "trusted: regex / fancy-regex engines; hand-written id pattern evaluator cross-checked against regex::bytes on every case", "4/C11"),
+ "C12": ("property-based testing: reference keep(set,msg) vs filter_as_streams and StreamContext::from+match_filters",
+         "Generated-input exploration over filter sets of all kinds and message streams; selection, order, unchanged messages and counts for the stream filter; decision equality for the set matcher incl. several event filters.",
+         "container for match_filters is built through StreamContext::from (drops disabled filters) as the real callers do", "4/C12"),
 }
 PENDING = {}
 def main():
